@@ -100,11 +100,24 @@ def run_history(ctx, backend, ops, tag, reuse=False):
             try:
                 backend.advance_handle(parents, child)
             except Exception as e:
-                ctx.violation("advance-raised", "%r" % (e,), {"ops": ops, "step": step})
+                ctx.violation("advance-raised", "%r" % (e,), {"ops": ops, "step": step, "reuse": reuse})
                 return
+            before = dict(m.valid)
             m.advance(parents, child)
             for h in parents + [child]:
                 states[h.__handle__.hash] = h
+                fp = h.__handle__.fork_parent
+                while fp is not None:
+                    states.setdefault(fp.__handle__.hash, fp)
+                    fp = fp.__handle__.fork_parent
+            # The statement says when a state is valid: rolled back -> invalid, derived again -> valid.  Whether merely
+            # *using* an invalidated state as a parent (or as the fork parent of a parent) re-validates it is not specified
+            # (redun does so for a fresh object and does not for an object it already recorded): the model adopts what
+            # the backend says for exactly these states.
+            for hh, now_valid in list(m.valid.items()):
+                if now_valid and before.get(hh) is False and hh != child.__handle__.hash and hh in states:
+                    m.valid[hh] = bool(backend.is_valid_handle(states[hh]))
+                    ctx.count("unspecified_validity_of_invalid_parent_adopted")
             if rolled_with_desc:
                 interesting = True
         else:
@@ -115,7 +128,7 @@ def run_history(ctx, backend, ops, tag, reuse=False):
             try:
                 backend.rollback_handle(h)
             except Exception as e:
-                ctx.violation("rollback-raised", "%r" % (e,), {"ops": ops, "step": step})
+                ctx.violation("rollback-raised", "%r" % (e,), {"ops": ops, "step": step, "reuse": reuse})
                 return
             for x in lenient:
                 m.valid[x] = False
@@ -129,7 +142,7 @@ def run_history(ctx, backend, ops, tag, reuse=False):
             ctx.count("validity_comparisons")
             if got != exp:
                 ctx.violation("validity-differs-from-lineage-model", "after step %d %r: state %s is %s, model says %s" % (
-                    step, op, hh[:8], "valid" if got else "invalid", "valid" if exp else "invalid"), {"ops": ops, "step": step})
+                    step, op, hh[:8], "valid" if got else "invalid", "valid" if exp else "invalid"), {"ops": ops, "step": step, "reuse": reuse})
                 return
     ctx.ev()
     if interesting:
@@ -312,7 +325,9 @@ def main(ctx):
 def replay(ctx, witness):
     if "ops" in witness:
         print(witness["ops"])
-        run_history(ctx, engine.new_backend(), witness["ops"], "replay")
+        for reuse in ([witness["reuse"]] if "reuse" in witness else [False, True]):
+            print("reuse handle objects:", reuse)
+            run_history(ctx, engine.new_backend(), witness["ops"], "replay%d" % reuse, reuse=reuse)
     else:
         for l in witness["log"]:
             print(l)
